@@ -11,7 +11,18 @@ GEN = "Sympler/Gen/CellTablesGen.lean"
 TR_NAME = "translator t_cells (c_offsets, OFFSET2NEIGHBOR, INV_NEIGHBOR, TOCELLINDEX, cellDist, addPair with its cutoff test, checkNewPosition offset and re-entry position)"
 
 
+TR_SITES = "translator t_createdist (every call site of createDistancesForSame / createDistancesForDifferent in CellLink::createDistances, loop skeleton checked; the model's linkPairs interprets the table)"
+SITE_THEOREMS = ["Sympler.CreateDist.C01_call_sites_wellformed", "Sympler.CreateDist.C01_call_sites_cover"]
+SITE_MODULES = ["Sympler.Gen.CreateDistGen", "Props.CreateDist"]
+
+
 def translate(ctx):
+    try:
+        import t_createdist
+        common.write_if_changed(os.path.join(common.LEAN, "Sympler/Gen/CreateDistGen.lean"), t_createdist.generate(common.REPO))
+        ctx.oblige(TR_SITES, True)
+    except Exception as ex:
+        ctx.oblige(TR_SITES, False, repr(ex))
     try:
         gen = t_cells.generate(common.REPO)
         common.write_if_changed(os.path.join(common.LEAN, GEN), gen)
